@@ -379,3 +379,54 @@ def c17_fixed_income(case, impl_case):
             fails.append("index row %d: %r, expected %r (pnl %r, notional %r)" % (t, pr[t], want, pnl, base))
             break
     return fails
+
+
+# ---------------------------------------------------------------- C02
+def c02_attribution(case, impl_case):
+    """root of a finished backtest: V_t - V_{t-1} = sum_sec pos_{t-1} (p_t - p_{t-1}) m + flows_t
+       + sum_sec (coupon - holding cost)_{t-1} - sum_nodes fees_t - sum_sec bid/offer paid_t"""
+    fails = []
+    state = impl_case["steps"][-1]["state"]
+    root, nodes, _ = build_tree(state)
+    if root is None:
+        return fails
+    specs = spec_index(case["tree"])
+
+    def has_flow_algo(a):
+        if a[0] == "capitalflow":
+            return True
+        return any(has_flow_algo(y) for x in a[1:] if isinstance(x, list)
+                   for y in ([x] if x and isinstance(x[0], str) else x) if isinstance(y, list) and y and isinstance(y[0], str))
+    for path, sp in specs.items():
+        if path != "r" and sp[0] == "strat" and len(sp) > 4 and any(has_flow_algo(a) for a in sp[4]):
+            return fails          # outside money enters below the root: not visible in the root's flows
+    prices = {k: [float("nan") if x == "nan" else float.fromhex(x) for x in col] for k, col in case["prices"]}
+    prices = {k: [float("nan")] + col for k, col in prices.items()}      # the synthetic first row
+    mults = mults_of_case(case)
+    vals, flows = root.vals("hg_values"), root.vals("hg_flows")
+    secs = [n for n in walk(root) if n.kind == "S" and n.f.get("priced", ["T"])[0] == "T"]
+    strats = [n for n in walk(root) if n.kind == "G"]
+    for t in range(1, len(vals)):
+        want = flows[t]
+        ok = True
+        for s_ in secs:
+            sid = int(s_.path.split(".")[-1])
+            pos = s_.vals("h_positions")[t - 1]
+            if pos != 0:
+                p1, p0 = prices[sid][t], prices[sid][t - 1]
+                if p1 != p1 or p0 != p0:
+                    ok = False
+                    break
+                want += pos * (p1 - p0) * mults.get(strip_paper(s_.path), 1.0)
+            if "h_coupons" in s_.f:
+                want += s_.vals("h_coupons")[t - 1] - s_.vals("h_hcosts")[t - 1]
+            if "h_bopaid" in s_.f:
+                want -= s_.vals("h_bopaid")[t]
+        if not ok:
+            continue
+        for g_ in strats:
+            want -= g_.vals("hg_fees")[t]
+        got = vals[t] - vals[t - 1]
+        if not near(got, want, max(abs(vals[t]), abs(vals[t - 1]))):
+            fails.append("date %d: value moved by %r, attribution gives %r" % (t, got, want))
+    return fails
